@@ -151,7 +151,7 @@ Definition str_NAME : str := Str "NAME".
 
 Definition top_is (vs : list tree) (s : str) : res bool :=
   match vs with
-  | [] => Err PyIndexError                       (* value_stack[-1] on an empty stack *)
+  | [] => Ok false                               (* `value_stack and ...`: guarded since the fix of the root-level IndexError *)
   | Tok t :: _ => Ok (str_eqb (tval t) s)        (* Token == str compares the text, case-sensitively *)
   | Node _ _ _ :: _ => Ok false                  (* Tree.__eq__ with a str is False *)
   end.
